@@ -147,7 +147,7 @@ func (h *tmHarness) finish(id int, kind string, raw interface{}, realised bool) 
 	h.rec.Lock()
 	evs := h.rec.events
 	h.rec.Unlock()
-	return vO{"id": id, "kind": kind, "events": evs, "realised": realised, "outcome": "returned", "raw": string(js),
+	return vO{"id": id, "kind": kind, "impl": "mcrew", "events": evs, "realised": realised, "outcome": "returned", "raw": string(js),
 		"short": int(shortDelay / time.Millisecond), "long": int(longDelay / time.Millisecond)}
 }
 
